@@ -213,7 +213,7 @@ def run(ctx, chk):
         m = r[1][2] if ok else {}
         tok = lambda st, i_: ("token", st, i_)
         chk.check(R2, ok and m.get("version") == ("sym", "VERSION"), "convert:version=header.version", "version is %s" % (m.get("version"),), WC)
-        chk.check(R2, ok and m.get("capabilities") == ("list", [("capability_of", "CAP0"), ("capability_of", "CAP1")]), "convert:capabilities-in-order",
+        chk.check(R2, ok and m.get("capabilities") == ("list", [("capability_of", "CAP0"), ("capability_of", "CAP1"), ("capability_of", "CAP0")]), "convert:capabilities-in-order",
                   "capabilities are %s" % (m.get("capabilities"),), WC)
         chk.check(R2, ok and m.get("memory_model") == ("lifted_memory_model", "MM"), "convert:memory-model", "memory model is %s" % (m.get("memory_model"),), WC)
         st_ok = ok and all(isinstance(m.get(k_), tuple) and m[k_][:2] == ("contents", k_) for k_ in ("types", "constants", "ops"))
